@@ -259,6 +259,8 @@ def extend_schema(
                 builder.build_type(op_def.type)
             )
 
+    default_resolver = schema.default_resolver
+
     schema = Schema(
         query_type=operation_types["query"],
         mutation_type=operation_types["mutation"],
@@ -267,6 +269,10 @@ def extend_schema(
         directives=directives,
         nodes=(schema.nodes or []) + (schema_exts or []),  # type: ignore
     )
+
+    # Field and type level resolvers come with the extended types, the schema
+    # wide default resolver has to be carried over explicitly.
+    schema.default_resolver = default_resolver
 
     if schema_directives is not None:
         schema = apply_schema_directives(schema, schema_directives)
